@@ -4,7 +4,7 @@ obligation.  This check re-runs the symbolic executions of the other properties'
 obligations (and the path-coverage obligations that make them meaningful)."""
 import importlib
 
-SOURCES = ['c01', 'c02', 'c03', 'c07', 'c13', 'c14', 'c08', 'c11', 'c16', 'c17', 'c06', 'c15', 'c19']      # c02 includes the evaluator arms and the wildcard matcher; c06 the JSON / protobuf conversions; c19 the FFI and CLI wrappers
+SOURCES = ['c01', 'c02', 'c03', 'c07', 'c10', 'c13', 'c14', 'c08', 'c11', 'c16', 'c17', 'c06', 'c15', 'c19']      # c02 includes the evaluator arms and the wildcard matcher; c06 the JSON / protobuf conversions; c19 the FFI and CLI wrappers
 THOROUGH_SOURCES = ['c04']                                                                      # the closure algorithms on symbolic graphs (minutes)
 
 
@@ -31,7 +31,10 @@ def run(ctx):
     own = c20_kernels.families(ctx)
     ctx.panic_only = True
     ctx.run_families(fams + [(f'C20:{name}', (lambda fn=fn: unfiltered(ctx, fn))) for name, fn in own])
-    ctx.bounds += ['EST printer of an extension call: 0..3 arguments, every outcome of the style lookup and of the writer',
+    ctx.guarded('native battery: extension constructors', lambda: c20_kernels.ext_parse_battery(ctx))
+    ctx.bounds += ['native battery (sampling, not a solver verdict): datetime / duration / decimal / ip constructors on ~' + str(sum(len(c20_kernels.ext_strings(f)) for f in c20_kernels.EXT_BASE)) + ' strings derived from valid ones '
+                   '(non-ASCII decimal digits in every digit position, stretched numbers, moved signs and separators): none panics',
+                   'EST printer of an extension call: 0..3 arguments, every outcome of the style lookup and of the writer',
                    'fuzzy_match::levenshtein_distance: words of <= 2 x 2 (+ 3 x 1, 1 x 3; thorough: <= 3 x 3) characters, every character an arbitrary Unicode scalar value (UTF-8 length 1..4 symbolic)',
                    'full input space of each encoded kernel under its stated precondition (see the evidence of C01/C02/C06/C07/C08/C11/C13/C14/C15/C16/C19 - thorough: also C04 - for the preconditions)']
     ctx.assumptions += ['only the kernels listed in functions_encoded (core kernels, the AST <-> EST / PST / protobuf conversions, the batched-evaluation driver, the FFI and CLI wrapper functions with their callees as stubs); parsers, serde, error rendering and deep-nesting limits - most of C20 - are NOT covered',
